@@ -96,6 +96,14 @@ Qed.
 Lemma nw_hook h d0 : from (@NWr dstate) d0 (hook h).
 Proof. unfold hook. apply f_emit. intros n cm [X|[]]. discriminate. Qed.
 
+(* triggershutdown sends shutdown commands only *)
+Lemma nw_triggershutdown d0 : from (@NWr dstate) d0 d_triggershutdown.
+Proof.
+  unfold d_triggershutdown. apply f_get. destruct (d_shuttingdown d0); [apply f_ret; rr|].
+  apply f_bind; [rr|apply f_put; intros k cm []|]. intros _ d1.
+  apply f_mfor; [rr|rr|]. intros n. apply nw_node_shutdown.
+Qed.
+
 Lemma wd_errordown n d0 : from WrD d0 (d_worker_errordown n).
 Proof.
   rewrite errordown_unfold. apply nw_then_w; [apply nw_hook|]. intros _ d1.
@@ -109,8 +117,8 @@ Proof.
     destruct (mem_nat n (s_nodes (d_sched d1))); [|apply f_ret; exact (Wr_refl _)].
     apply w_then_m; [apply wd_sched_remove|]. intros; mrd.
   - apply m_to_w. mrd.
-  - apply nw_then_w; [|intros; apply wd_errordown].
-    apply f_get. apply f_put. intros k cm [].
+  - apply nw_then_w; [apply f_get; apply f_put; intros k cm []|]. intros _ d2.
+    apply nw_then_w; [apply nw_triggershutdown|intros; apply wd_errordown].
 Qed.
 
 (* ---- the collectionfinish turn: add_node_collection, then schedule() when collection is completed ---- *)
